@@ -312,15 +312,18 @@ class Check(object):
         ev = {'property_id': self.pid, 'tier': self.tier, 'seed': self.seed, 'level': 'proof',
               'coverage': cov, 'assumptions': self.assumptions, 'wall_s': round(wall, 2),
               'violations': len(self.violations)}
-        os.makedirs(os.path.join(VERIF, 'evidence'), exist_ok=True)
-        with open(os.path.join(VERIF, 'evidence', self.pid + '.json'), 'w') as f:
+        # (VERIF_EVIDENCE_DIR: experiments against scratch copies must not overwrite the committed evidence)
+        evdir = os.environ.get('VERIF_EVIDENCE_DIR') or os.path.join(VERIF, 'evidence')
+        os.makedirs(evdir, exist_ok=True)
+        with open(os.path.join(evdir, self.pid + '.json'), 'w') as f:
             json.dump(ev, f, indent=1, default=str)
             f.write('\n')
         rc = 0
         if self.violations:
-            os.makedirs(os.path.join(VERIF, 'replays'), exist_ok=True)
+            rpdir = os.environ.get('VERIF_REPLAY_DIR') or os.path.join(VERIF, 'replays')
+            os.makedirs(rpdir, exist_ok=True)
             for i, v in enumerate(self.violations[:5]):
-                path = os.path.join(VERIF, 'replays', '%s-%d-%d.json' % (self.pid, self.seed, i))
+                path = os.path.join(rpdir, '%s-%d-%d.json' % (self.pid, self.seed, i))
                 with open(path, 'w') as f:
                     json.dump(v, f, indent=1, default=str)
                 tail = '' if v['failing_input_found'] else ' no-failing-input-found'
